@@ -21,10 +21,10 @@ impl Format {
     }
 
     fn detect_npy(bytes: &[u8]) -> Option<Self> {
-        (bytes[..npy::MAGIC.len()] == npy::MAGIC).then_some(Self::Npy)
+        bytes.starts_with(&npy::MAGIC).then_some(Self::Npy)
     }
 
     fn detect_plain_text(bytes: &[u8]) -> Option<Self> {
-        (bytes[..text::START.len()] == text::START).then_some(Self::Text)
+        bytes.starts_with(&text::START).then_some(Self::Text)
     }
 }
